@@ -151,9 +151,9 @@ theorem ladderInit_facts :
 theorem ladderStep_facts :
     G.ladderStep.inputs = ["x1", "x2", "z2", "x3", "z3", "swap", "kt"]
     ∧ G.ladderStep.outputs = ["x2", "z2", "x3", "z3", "swap"] ∧ G.ladderStep.outIds = [1, 2, 3, 4, 5]
-    ∧ G.ladderStep.facts = [("loop", "for t := 56*8 - 1; t >= 0; t--"), ("loop.var", "t"),
-        ("loop.start", "447"), ("loop.cond", "t >= 0"), ("loop.post", "t--"),
-        ("opaque kt", "int(k[t/8]>>(t%8)) & 1")]
+    ∧ G.ladderStep.facts = [("loop.var", "t"),
+        ("loop.start", "447"), ("loop.cond", "(t >= 0)"), ("loop.post", "t--"),
+        ("opaque kt", "(1 & int((k[(t / 8)] >> (t % 8))))")]
     ∧ G.ladderStep.guards = [] ∧ G.ladderStep.hazards = [] ∧ G.ladderStep.wf = true := by
   ptops_decide "C14StepOps.ladderStep_facts"
 
